@@ -168,6 +168,7 @@ func runVector(v *Vector, seed int64, wantTrace bool) VecResult {
 		}
 		sort.Strings(keys)
 		sig, _ := obs["sig"].(string)
+		site, _ := args["site"].(string) // the generation side may name the class of a step; it becomes part of failure signatures
 		if hang, _ := obs["hang"].(bool); hang {
 			res.Failures = append(res.Failures, Failure{Vid: v.ID, Step: i + 1, Act: st.Act, Prop: st.Prop, Key: "hang", Got: "no return within watchdog", Want: "return", Sig: sig})
 		}
@@ -196,6 +197,9 @@ func runVector(v *Vector, seed int64, wantTrace bool) VecResult {
 					f.Got = short(J{"panic": obs["panic"], "msg": obs["panicmsg"]})
 				} else if f.Sig == "" {
 					f.Sig = "diff@" + diffPath(obs[k], exp[k], k)
+				}
+				if site != "" {
+					f.Sig += "#" + site
 				}
 				res.Failures = append(res.Failures, f)
 			}
